@@ -508,7 +508,15 @@ def version_word(ctx, q, mf, registry):
     st, mm = q.check([word != z3.Concat(z3.BitVecVal(0, 8), M, m_, z3.BitVecVal(0, 8))], "version-word")
     ctx.ob("version/word-is-0x00MMmm00", st == "unsat" or (False if st == "sat" else None))
     if st == "sat":
-        ctx.violation("version/word-layout", "create_word_from_version(%s, %s) is not 0x00MMmm00" % (mm[M], mm[m_]), None)
+        Mv, mv = mm.eval(M, model_completion=True).as_long(), mm.eval(m_, model_completion=True).as_long()
+        rp_ = Replay()
+        real = rp_.ask("builder_set_version 0 %d %d" % (Mv, mv))
+        rp_.close()
+        if "panic" in real or real.get("word") != (Mv << 16 | mv << 8):
+            ctx.violation("version/word-layout", "create_word_from_version(%d, %d) is not 0x00MMmm00: the built module's version word is %s" % (Mv, mv, real.get("word")),
+                          {"cmd": "builder_set_version 0 %d %d" % (Mv, mv), "real": real})
+        else:
+            ctx.inconclusive.append(("version/word-is-0x00MMmm00", "model-only: the compiled crate packs %d.%d as %#x" % (Mv, mv, real.get("word"))))
     w = z3.BitVec("w", 32)
     r2 = eng.run(un, [w])
     if len(r2) == 1 and r2[0].status == "return":
@@ -517,12 +525,31 @@ def version_word(ctx, q, mf, registry):
         st, mm = q.check([z3.Or(a != z3.Extract(23, 16, w), b != z3.Extract(15, 8, w))], "version-unpack")
         ctx.ob("version/unpack-takes-bytes-2-and-1", st == "unsat" or (False if st == "sat" else None))
         if st == "sat":
-            ctx.violation("version/unpack", "create_version_from_word(%s) wrong" % mm[w], None)
+            wv = mm.eval(w, model_completion=True).as_long()
+            import c03
+            hexb = c03.le(0x07230203) + c03.le(wv) + c03.le(0) + c03.le(9) + c03.le(0)
+            rp_ = Replay()
+            real = rp_.ask("load_disassemble %s" % hexb)
+            rp_.close()
+            want = "; Version: %d.%d" % ((wv >> 16) & 0xff, (wv >> 8) & 0xff)
+            if "panic" in real or (real.get("loaded") and want not in real.get("text", "")):
+                ctx.violation("version/unpack", "create_version_from_word(%#x) is not (byte 2, byte 1): the disassembly header reads %r" % (
+                    wv, [l for l in real.get("text", "").split("\n") if "Version" in l]), {"cmd": "load_disassemble %s" % hexb, "real": real})
+            else:
+                ctx.inconclusive.append(("version/unpack-takes-bytes-2-and-1", "model-only: the compiled crate unpacks %#x as %s" % (wv, want)))
         r3 = eng.run(un, [word])
         if len(r3) == 1 and r3[0].status == "return":
             a, b = r3[0].value.fields
             st, mm = q.check([z3.Or(a != M, b != m_)], "version-roundtrip")
             ctx.ob("version/roundtrip", st == "unsat" or (False if st == "sat" else None))
             if st == "sat":
-                ctx.violation("version/roundtrip", "version %s.%s does not survive the version word" % (mm[M], mm[m_]), None)
+                Mv, mv = mm.eval(M, model_completion=True).as_long(), mm.eval(m_, model_completion=True).as_long()
+                rp_ = Replay()
+                real = rp_.ask("builder_set_version 0 %d %d" % (Mv, mv))
+                rp_.close()
+                if "panic" in real or real.get("version") != [Mv, mv]:
+                    ctx.violation("version/roundtrip", "version %d.%d does not survive the version word: the built module reports %s" % (Mv, mv, real.get("version")),
+                                  {"cmd": "builder_set_version 0 %d %d" % (Mv, mv), "real": real})
+                else:
+                    ctx.inconclusive.append(("version/roundtrip", "model-only: the compiled crate reports %s" % real.get("version")))
     ctx.functions.update(["utils::version::create_word_from_version", "utils::version::create_version_from_word"])
